@@ -8,7 +8,6 @@ import (
 	"fmt"
 	"hash"
 	"math"
-	"os"
 	"strconv"
 	"strings"
 	"testing"
@@ -191,23 +190,7 @@ func c22RandKey(r *verifh.Rand) string {
 	return hex.EncodeToString(r.Bytes(r.Intn(40)))
 }
 
-// c22Attach holds a write end of the transcript fifo from before the first write to the end of the
-// run, so that a short transcript cannot be written and discarded before the driver has attached
-// (verifh.Open uses O_RDWR, which does not wait for a reader).
-func c22Attach() func() {
-	p := os.Getenv("VERIF_OUT")
-	if fi, err := os.Stat(p); p == "" || err != nil || fi.Mode()&os.ModeNamedPipe == 0 {
-		return func() {}
-	}
-	f, err := os.OpenFile(p, os.O_WRONLY, 0)
-	if err != nil {
-		return func() {}
-	}
-	return func() { f.Close() }
-}
-
 func TestVerif_C22(t *testing.T) {
-	defer c22Attach()()
 	tr := verifh.Open("hrw")
 	defer tr.Close()
 	cases, replayOnly := verifh.InputCases("hrw")
